@@ -168,13 +168,14 @@ PROPS = {
         explanation='quote selection of the printer: info::escape(v) returns q + v + q with q a quote character that does not occur in v, for every v that does not contain both quote characters, so the literal re-reads as v under productions [10]-[12]',
     ),
     'C11': dict(
-        standin_ops=['info.normalize_ws', 'info.equal_qname'],
-        verus_units=['info_helpers'],
+        standin_ops=['info.normalize_ws', 'info.equal_qname', 'info.attr_norm'],
+        verus_units=['info_helpers', 'c03_entity'],
         level='proof',
         trusted_base=TRUSTED_VERUS,
-        assumptions=[A1, A2 + ' (String::replace(char, " ") as a pointwise map; str::to_string; char::from_u32_unchecked by assume_specification carrying its safety precondition)', A8],
-        not_decided='recursion through entity references, type-dependent collapsing, defaulting and `specified` (XmlAttribute::normalized_value, attr_value_from_name, XmlElement::attributes): live document and nom',
-        explanation='white-space step of attribute-value normalization and the declaration key: info::equal_qname is true exactly for two QNames of the same form with identical prefix and local part (the key by which an attribute finds its ATTLIST declaration); info::normalize_ws keeps the length and maps exactly #x20 #x9 #xA #xD to a space and every other character to itself, for every string; the four from_u32_unchecked arguments are proved to be scalar values',
+        assumptions=[A1, A2 + ' (String::replace(char, " ") as a pointwise map; str::to_string; char::from_u32_unchecked by assume_specification carrying its safety precondition; String::push / push_str / new by their views; split(\' \').filter(non-empty).join(" ") as "the tokens separated by single spaces")', A4, A8,
+                     'the entity table (Context::entity), the value list of an entity and the declared attribute type (declaration_type) are assumed callees over the live document, tied to the uninterpreted spec functions entity_values / chain_bound and the ghost field `declared`; the Char / Entity / Text variants of XmlAttributeValue are assumed to hold items of the matching kind (XmlAttributeValue::try_from), so the item accessors + unwrap() are read as fields; char_from_char10/16 and normalize_ws are used through the contracts proved in info_helpers'],
+        not_decided='which declaration applies (declaration_def / declaration_att_list over the live document), defaulting and `specified` (XmlElement::attributes, new_from_declaration), ATTLIST parsing (nom); that the bound on the reference chain (declared entities + 1) never cuts a legal expansion short is argued in DESIGN, not proved',
+        explanation='attribute-value normalization, XML 1.0 3.3.3: info::normalize_ws keeps the length and maps exactly #x20 #x9 #xA #xD to a space; attr_value_from_name(_within) returns the replacement text of the entity with literal text normalized and references followed recursively, and an error exactly when the expansion has no value; XmlAttribute::normalized_value returns the concatenation of: the referenced character unchanged (character reference), the normalized text (literal), the replacement text normalized as a whole (entity reference, including characters given by character references inside the entity), collapsed to single-space-separated tokens when a non-CDATA type is declared; info::equal_qname (the key by which an attribute finds its ATTLIST declaration) compares prefix and local part exactly',
     ),
 }
 
@@ -261,7 +262,7 @@ MANIFEST_TEXT = {
         technique='contract-based deductive verification (Verus postcondition on the extracted real function)',
         design_ref='DESIGN.md §4 C04'),
     'C11': dict(
-        level_text='Proof (Verus, all strings) that info::equal_qname compares prefix and local part exactly and that info::normalize_ws is the pointwise map sending exactly tab, CR, LF and space to a space, length preserved, unsafe from_u32_unchecked arguments valid. White-space step of C11 only.',
+        level_text='Proof (Verus, all strings, all entity tables, all value lists): info::normalize_ws is the pointwise map sending exactly tab, CR, LF and space to a space; attr_value_from_name(_within) computes the recursive expansion of an entity with literal text normalized; XmlAttribute::normalized_value is the piecewise concatenation XML 1.0 3.3.3 prescribes (character reference unchanged, text normalized, entity replacement text normalized as a whole) and collapses it for declared non-CDATA types; info::equal_qname compares prefix and local part exactly. Which declaration applies, defaulting and `specified` are not decided.',
         level_note='Trusted: Verus+Z3, extractor, String::replace shim. Not decided: entity recursion, typed collapsing, defaulting.',
         technique='contract-based deductive verification (Verus postconditions on the extracted real function)',
         design_ref='DESIGN.md §4 C11'),
